@@ -115,6 +115,7 @@ type Contracts struct {
 	Files   []string
 	Trusted []string // human readable list of assumptions
 	NoPanicArgs []NoPanicArg
+	SecretFields []string
 	Sources map[string]string // pkgpath -> file used
 }
 
@@ -548,6 +549,11 @@ func (cs *Contracts) parseLine(cur **FuncContract, t, path string, ln int, pkgPa
 	case "secret":
 		for _, f := range strings.Fields(rest) {
 			cs.Secrets = append(cs.Secrets, f)
+		}
+	case "secretfield":
+		// secretfield <pkgpath>.<Type>.<Field> ...: a plain (string / []byte) field that holds the text form of a secret
+		for _, f := range strings.Fields(rest) {
+			cs.SecretFields = append(cs.SecretFields, f)
 		}
 	default:
 		return errf("unknown contract line %q", t)
